@@ -205,7 +205,7 @@ func (r *renderer) stmt(s Stmt) {
 				r.funcLit(fl)
 				r.t("(", false)
 				r.args(c.Args)
-				r.tnl(")", false)
+				r.closer(")", len(c.Args) > 0)
 				break
 			}
 		}
@@ -455,16 +455,16 @@ func (r *renderer) exprRaw(e Expr) {
 		r.tnl(x.Name, false)
 		r.t("(", false)
 		r.args(x.Args)
-		r.tnl(")", false)
+		r.closer(")", len(x.Args) > 0)
 	case *Call:
 		r.expr(x.F, pCall)
 		r.t("(", false)
 		r.args(x.Args)
-		r.tnl(")", false)
+		r.closer(")", len(x.Args) > 0)
 	case *ListLit:
 		r.t("[", true)
 		r.args(x.Items)
-		r.tnl("]", false)
+		r.closer("]", len(x.Items) > 0)
 	case *MapLit:
 		r.t("{", true)
 		for i := range x.Keys {
@@ -483,7 +483,7 @@ func (r *renderer) exprRaw(e Expr) {
 	case *SetLit:
 		r.t("{", true)
 		r.args(x.Items)
-		r.tnl("}", false)
+		r.t("}", false) // a set literal does not accept a line break before its closing brace
 	case *FuncLit:
 		r.funcLit(x)
 	case *IfExpr:
@@ -526,6 +526,15 @@ func (r *renderer) exprRaw(e Expr) {
 		}
 	default:
 		panic(fmt.Sprintf("render: unknown expression %T", e))
+	}
+}
+
+// closer emits a closing bracket; a line break before it is accepted only when the list is not empty.
+func (r *renderer) closer(text string, nonEmpty bool) {
+	if nonEmpty {
+		r.tnl(text, false)
+	} else {
+		r.t(text, false)
 	}
 }
 
